@@ -634,3 +634,57 @@ class get_parent_name_c:
                'result == remove_quotes(PREV[1].value) if PREV[1] is not None else True']
     raises = []
     serves = ['C12']
+
+
+# --------------------------------------------------------------------------------- get_token_at_offset (C03)
+
+_LEAFVAL = z3.Function('LEAF_value', z3.IntSort(), z3.StringSort())
+_PREFIXLEN = z3.Function('PREFIXLEN', z3.IntSort(), z3.IntSort())
+
+
+def _leaf(ex, st, k):
+    """the k-th leaf of the flattened tree: an object identified by its position"""
+    return ex.new_obj(st, 'Leaf', {'value': SStr(_LEAFVAL(ex.z_int(k))), 'POS': SInt(z3.simplify(ex.z_int(k)))})
+
+
+class _FlattenModel:
+    """call-site model of TokenList.flatten(): the sequence of leaves LEAF(0..N-1) (its relation to the tree is the
+    flatten/__str__ shape obligation and I4); PREFIXLEN(k) is the total length of the values of the first k leaves"""
+
+    @staticmethod
+    def model(ex, self_val, args, kw, st):
+        n = fresh('n_leaves', z3.IntSort())
+        st.assume(n >= 0)
+        st.ghost['NLEAVES'] = SInt(n)
+
+        def at(ex_, s, k):
+            zk = ex_.z_int(k)
+            # definition of PREFIXLEN unfolded at the visited position
+            s.assume(_PREFIXLEN(z3.IntVal(0)) == 0)
+            s.assume(_PREFIXLEN(zk + 1) == _PREFIXLEN(zk) + z3.Length(_LEAFVAL(zk)))
+            return [(s, _leaf(ex_, s, k))]
+        return [(st, ex.new_obj(st, 'aseq', {'N': SInt(n), 'AT': at}))]
+
+
+def _offset_ghost(ex, st):
+    st.ghost['PREFIXLEN'] = Func('spec.PREFIXLEN', model=lambda e, s_, a, k, s: [(s, SInt(_PREFIXLEN(e.z_int(a[0]))))])
+    st.assume(_PREFIXLEN(z3.IntVal(0)) == 0)
+
+
+class get_token_at_offset_c:
+    """the leaf whose character span [PREFIXLEN(j), PREFIXLEN(j+1)) contains the offset, None if no leaf does (spans are
+    consecutive, so there is at most one)"""
+    exec_class = HeapExec
+    params = {'self': make_group, 'offset': 'int'}
+    ghost_init = staticmethod(_offset_ghost)
+    loops = {'0': {'inv': ['idx == PREFIXLEN(IT0.K)', 'offset < 0 or offset >= PREFIXLEN(IT0.K)']}}
+    requires = []
+    ensures = ['(offset < 0 or offset >= PREFIXLEN(NLEAVES)) if result is None else '
+               '(PREFIXLEN(result.POS) <= offset and offset < PREFIXLEN(result.POS + 1) '
+               'and 0 <= result.POS and result.POS < NLEAVES)']
+    raises = []
+    serves = ['C03', 'C07']
+
+
+REG.add('sqlparse.sql.TokenList.get_token_at_offset', 'body', get_token_at_offset_c)
+REG['sqlparse.sql.TokenList.flatten'] = _FlattenModel
